@@ -291,6 +291,39 @@ def self_field(node):
     return None
 
 
+def for_loop(node):
+    """If node is the desugaring of `for pat in iterable { body }` return
+    (pat, iterable_expr, body_expr) else None."""
+    if node.get("k") != "Match" or not node.get("ms", "").startswith("ForLoopDesugar"):
+        return None
+    it = peel(node["e"])
+    iterable = it["a"][0] if it.get("k") == "Call" and it.get("n") == "into_iter" and it.get("a") else node["e"]
+    try:
+        loop = peel(node["arms"][0]["b"])
+        while loop.get("k") == "Block":
+            loop = peel(loop["ss"][0] if loop["ss"] else loop["e"])
+        inner = peel(loop["b"])
+        while inner.get("k") == "Block":
+            inner = peel(inner["ss"][0] if inner["ss"] else inner["e"])
+        assert inner.get("k") == "Match"
+        for arm in inner["arms"]:
+            q = pat_peel(arm["p"])
+            if q.get("k") == "Variant" and q["v"] == "Some":
+                return (q["sub"][0]["p"], iterable, arm["b"])
+    except (KeyError, IndexError, AssertionError):
+        return None
+    return None
+
+
+def for_loops(root):
+    out = []
+    for n in walk(root):
+        fl = for_loop(n)
+        if fl:
+            out.append((n,) + fl)
+    return out
+
+
 # ---------------------------------------------------------------- patterns
 
 WILD = "*"
